@@ -164,6 +164,170 @@ theorem c15_handshake (nkeys : Nat) (rs : List Reply) :
 theorem c15_noise_ignored_before_cnxn (nkeys : Nat) (rs : List Reply) : connect nkeys (.noise :: rs) = connect nkeys rs := by
   simp [connect, readUntil]
 
+/-! #### the handshake deadline -/
+
+theorem readUntilE_none (w : Bool) : ∀ rs : List Reply,
+    readUntilE w none rs = (match readUntil w rs with | none => RU.exhausted | some (r, rest) => RU.got r rest none)
+  | [] => by simp [readUntilE, readUntil]
+  | x :: xs => by
+    have ih := readUntilE_none w xs
+    cases x <;> simp only [readUntilE, readUntil, tick, expired, Option.map_none] <;> (try split) <;> simp_all
+
+theorem keyLoopE_none (nkeys : Nat) : ∀ (d k : Nat), nkeys - k = d → ∀ (msg : Reply) (rs : List Reply) (sent : List Sent),
+    keyLoopE nkeys k msg rs none sent = keyLoop nkeys k msg rs sent := by
+  intro d
+  induction d with
+  | zero =>
+    intro k hd msg rs sent
+    have hnlt : ¬ k < nkeys := by omega
+    unfold keyLoopE keyLoop
+    simp only [hnlt, dite_false]
+    rw [show (if expired none = true then none else none) = (none : Option Nat) from by simp, readUntilE_none]
+    cases readUntil false rs with
+    | none => simp
+    | some p => simp
+  | succ d ih =>
+    intro k hd msg rs sent
+    have hlt : k < nkeys := by omega
+    unfold keyLoopE keyLoop
+    simp only [hlt, dite_true]
+    cases msg with
+    | authToken t =>
+      simp only [readUntilE_none]
+      cases hr : readUntil true rs with
+      | none => simp
+      | some p =>
+        obtain ⟨r, rest⟩ := p
+        cases r with
+        | cnxn m ok => simp
+        | authToken t' => simp only; exact ih (k + 1) (by omega) _ _ _
+        | authOther => simp only; exact ih (k + 1) (by omega) _ _ _
+        | noise => simp only; exact ih (k + 1) (by omega) _ _ _
+    | _ => rfl
+
+/-- a handshake whose time-out never expires is the handshake of `c15_handshake` -/
+theorem connectE_never_expiring (nkeys : Nat) (rs : List Reply) : connectE nkeys none rs = connect nkeys rs := by
+  unfold connectE connect
+  simp only [readUntilE_none]
+  cases hr : readUntil true rs with
+  | none => simp
+  | some p =>
+    obtain ⟨r, rest⟩ := p
+    cases r with
+    | cnxn m ok => simp
+    | authToken t => simp only; split <;> first | rfl | exact keyLoopE_none nkeys _ 0 rfl _ _ _
+    | authOther => simp only; split <;> first | rfl | exact keyLoopE_none nkeys _ 0 rfl _ _ _
+    | noise => simp only; split <;> first | rfl | exact keyLoopE_none nkeys _ 0 rfl _ _ _
+
+theorem readUntilE_mem (w : Bool) : ∀ (rs : List Reply) (exp : Option Nat) (r : Reply) (rest : List Reply) (exp' : Option Nat),
+    readUntilE w exp rs = .got r rest exp' → r ∈ rs ∧ (∀ x ∈ rest, x ∈ rs) ∧ r ≠ .noise ∧ (w = false → ∃ m ok, r = .cnxn m ok)
+  | [], _, r, rest, exp', h => by simp [readUntilE] at h
+  | x :: xs, exp, r, rest, exp', h => by
+    have lift : ∀ exp2, readUntilE w exp2 xs = .got r rest exp' →
+        r ∈ x :: xs ∧ (∀ y ∈ rest, y ∈ x :: xs) ∧ r ≠ .noise ∧ (w = false → ∃ m ok, r = .cnxn m ok) := by
+      intro exp2 h2
+      have := readUntilE_mem w xs exp2 r rest exp' h2
+      exact ⟨List.mem_cons_of_mem _ this.1, fun y hy => List.mem_cons_of_mem _ (this.2.1 y hy), this.2.2⟩
+    cases x with
+    | cnxn m ok =>
+      simp only [readUntilE, RU.got.injEq] at h
+      obtain ⟨rfl, rfl, _⟩ := h
+      exact ⟨List.mem_cons_self, fun y hy => List.mem_cons_of_mem _ hy, by simp, fun _ => ⟨m, ok, rfl⟩⟩
+    | authToken t =>
+      simp only [readUntilE] at h
+      split at h
+      · rename_i hw
+        simp only [RU.got.injEq] at h
+        obtain ⟨rfl, rfl, _⟩ := h
+        exact ⟨List.mem_cons_self, fun y hy => List.mem_cons_of_mem _ hy, by simp, fun hf => by simp [hw] at hf⟩
+      · split at h
+        · cases h
+        · exact lift _ h
+    | authOther =>
+      simp only [readUntilE] at h
+      split at h
+      · rename_i hw
+        simp only [RU.got.injEq] at h
+        obtain ⟨rfl, rfl, _⟩ := h
+        exact ⟨List.mem_cons_self, fun y hy => List.mem_cons_of_mem _ hy, by simp, fun hf => by simp [hw] at hf⟩
+      · split at h
+        · cases h
+        · exact lift _ h
+    | noise =>
+      simp only [readUntilE] at h
+      split at h
+      · cases h
+      · exact lift _ h
+
+theorem keyLoopE_connected (nkeys : Nat) : ∀ (d k : Nat), nkeys - k = d → ∀ (msg : Reply) (rs : List Reply) (exp : Option Nat)
+    (sent : List Sent) (rs0 : List Reply) (m : Nat), (∀ x ∈ rs, x ∈ rs0) →
+    (keyLoopE nkeys k msg rs exp sent).2 = .connected m → Reply.cnxn m true ∈ rs0 := by
+  intro d
+  induction d with
+  | zero =>
+    intro k hd msg rs exp sent rs0 m hrs hc
+    have hnlt : ¬ k < nkeys := by omega
+    unfold keyLoopE at hc
+    simp only [hnlt, dite_false] at hc
+    split at hc
+    · cases hc
+    · cases hc
+    · rename_i r rest exp' hr
+      have hm := readUntilE_mem false rs _ r rest exp' hr
+      obtain ⟨m', ok, rfl⟩ := hm.2.2.2 rfl
+      cases ok <;> simp [connectedOf] at hc
+      subst hc; exact hrs _ hm.1
+  | succ d ih =>
+    intro k hd msg rs exp sent rs0 m hrs hc
+    have hlt : k < nkeys := by omega
+    unfold keyLoopE at hc
+    simp only [hlt, dite_true] at hc
+    cases msg with
+    | authToken t =>
+      simp only at hc
+      split at hc
+      · cases hc
+      · cases hc
+      · rename_i m' ok rest exp' hr
+        have hm := readUntilE_mem true rs _ _ rest exp' hr
+        cases ok <;> simp [connectedOf] at hc
+        subst hc; exact hrs _ hm.1
+      · rename_i msg' rs' exp' _ hr
+        have hm := readUntilE_mem true rs _ msg' rs' exp' hr
+        exact ih (k + 1) (by omega) msg' rs' exp' _ rs0 m (fun x hx => hrs _ (hm.2.1 x hx)) hc
+    | cnxn _ _ => cases hc
+    | authOther => cases hc
+    | noise => cases hc
+
+/-- C15 with a deadline: whenever the handshake time-out expires — in the middle of unrelated packets, between
+    AUTH rounds, during the public-key wait — `connect` returns a connection only on a well-formed CNXN the
+    device really sent (with that CNXN's maxdata); unrelated traffic at the deadline is never taken for the
+    awaited reply -/
+theorem c15_deadline_never_connects_without_cnxn (nkeys : Nat) (exp : Option Nat) (rs : List Reply) (m : Nat)
+    (hc : (connectE nkeys exp rs).2 = .connected m) : Reply.cnxn m true ∈ rs := by
+  unfold connectE at hc
+  split at hc
+  · cases hc
+  · cases hc
+  · rename_i m' ok rest exp' hr
+    have hm := readUntilE_mem true rs _ _ rest exp' hr
+    cases ok <;> simp [connectedOf] at hc
+    subst hc; exact hm.1
+  · rename_i msg rs' exp' _ hr
+    have hm := readUntilE_mem true rs _ msg rs' exp' hr
+    split at hc
+    · cases hc
+    · exact keyLoopE_connected nkeys _ 0 rfl msg rs' exp' _ rs m hm.2.1 hc
+
+/-- unrelated packets until the deadline: a time-out error, not a connection and not a signature -/
+example : connectE 2 (some 3) [.noise, .noise, .noise, .cnxn 4096 true] = ([.cnxn], .timeoutError) := by decide
+/-- the awaited reply read while the time-out expires still counts -/
+example : connectE 2 (some 2) [.noise, .cnxn 4096 true] = ([.cnxn], .connected 4096) := by decide
+/-- expiry during the public-key wait -/
+example : connectE 1 (some 3) [.authToken 7, .authToken 8, .noise, .cnxn 4096 true] =
+    ([.cnxn, .signature 0 7, .publicKey 0], .timeoutError) := by
+  simp [connectE, readUntilE, keyLoopE, tick, expired, connectedOf]
+
 /-- C15 ids: an allocated local id is not in use, is non-zero and is below the id limit — for every
     limit, every `_last_id_used` and every set of live ids (wrap-around included) -/
 theorem c15_ids_distinct_nonzero_below_limit (limit last : Nat) (live : List Nat) (i : Nat) (hl : 0 < limit)
